@@ -24,7 +24,7 @@ echo "patch_applies=yes" >> $R
 ( cd $WT && PYTHONPATH=$WT /venv/bin/python $D/demo.py >/dev/null 2>&1; echo "demo_with_change_rc=$?" >> $R )
 if [ "${SKIP_SUITE:-0}" = "1" ] && [ -n "$OLD_SUITE" ]; then echo "$OLD_SUITE (from the earlier confirmation run)" >> $R; fi
 if [ "${SKIP_SUITE:-0}" != "1" ]; then
-  ( cd $WT && PYTHONPATH=$WT timeout 5400 /venv/bin/python -m pytest -q -p no:cacheprovider --timeout=900 2>&1 | tail -25 > $D/suite_tail.txt; tail -1 $D/suite_tail.txt | sed "s/^/suite: /" >> $R; grep "^FAILED" $D/suite_tail.txt >> $R )
+  ( cd $WT && PYTHONPATH=$WT timeout 5400 /venv/bin/python -m pytest -q -p no:cacheprovider --timeout=3000 2>&1 | tail -25 > $D/suite_tail.txt; tail -1 $D/suite_tail.txt | sed "s/^/suite: /" >> $R; grep "^FAILED" $D/suite_tail.txt >> $R )
 fi
 for c in $CHECKS; do
   out=$(cd /verif && VERIF_REPO=$WT VERIF_JOBS=${VERIF_JOBS:-8} VERIF_BUDGET_S=${VERIF_BUDGET_S:-600} ./check $c 2>&1 | grep -v conda)
